@@ -2697,6 +2697,16 @@ func closeFlagLoweredWithEntry(p *Prog, r *Report) {
 					return false
 				}
 				hit, path := reachAvoiding(fn, st, isReturn, removal, nil)
+				if hit != nil {
+					// the other order is as good: the entries were removed before the flag is lowered
+					for _, b2 := range fn.Blocks {
+						for _, i2 := range b2.Instrs {
+							if removal(i2) && dominatesInstr(i2, st) {
+								hit, path = nil, nil
+							}
+						}
+					}
+				}
 				r.Check("R7", fmt.Sprintf("%s: the close flag is lowered only together with the removal of the stored Connection entries", funcName(fn)), hit == nil, p.Pos(st.Pos()),
 					"connectionClose = false, and a return is reachable without the Connection name being removed from the header's list or the list being reset: a routine that is not about the Connection header takes back a close decision (the handler's SetConnectionClose, or the parser's) - the peer is not told the connection closes, or a closing connection is pooled", blocksString(p, path)...)
 			}
